@@ -10,6 +10,7 @@
 //! pair <T|O> <trusted|otherca|selfsigned|servercert|none> <lib|raw> -> registered|refused:<stage>
 //! pairt <T|O> trusted <lib|raw> other -> ...   (the client trusts the other CA instead)
 //! pairb <otherca|trusted> <lib|raw> -> ...    (server with a PEM bundle [other leaf, other CA] as --cert; client trusts the other CA)
+//! pairr <round> <lib|raw> -> ...             (a set renewed in place by running the generator again; trusted pairing)
 //! end
 use crate::net::*;
 use crate::net_srv::{first_reply, frame_of};
@@ -179,6 +180,26 @@ pub async fn run_case(seed: u64, i: u64, out: &mut String) {
             let r = via_lib(srv_b, &ca_other, &c, &key, &format!("/tls{}x{}/bundlel{}", seed % 100_000, i, k)).await;
             let _ = writeln!(out, "pairb {} lib -> {}", cname, r);
         }
+        // a set that is renewed in place: the generator runs again into the same directories (first a
+        // set without expiry, then ordinary ones, whose files are shorter); each renewed set must work
+        let renewed = Certs::generate(&dir, "renewed")?;
+        for round in 0..3 {
+            renewed.regenerate(round == 0)?;
+            k += 1;
+            let (rl, rr) = match start_server_files(&renewed.server("localhost.der"), &renewed.server("localhost.key.der"), &renewed.server("ca.der")) {
+                Ok(srv_r) => {
+                    let rl = via_lib(srv_r, &renewed.client("ca.der"), &renewed.client("localhost.der"), &renewed.client("localhost.key.der"), &format!("/tls{}x{}/renewl{}", seed % 100_000, i, k)).await;
+                    let rr = via_raw(srv_r, &renewed.client("ca.der"), Some((der(&renewed.client("localhost.der")), der(&renewed.client("localhost.key.der")))), &format!("tls{}x{}", seed % 100_000, i), &format!("renew{}", k)).await;
+                    (rl, rr)
+                }
+                Err(e) => {
+                    let why = format!("refused:server_start:{}", format!("{:?}", e).split_whitespace().take(6).collect::<Vec<_>>().join("_"));
+                    (why.clone(), why)
+                }
+            };
+            let _ = writeln!(out, "pairr {} lib -> {}", round, rl);
+            let _ = writeln!(out, "pairr {} raw -> {}", round, rr);
+        }
         Ok(())
     }
     .await;
@@ -198,14 +219,14 @@ pub fn main(args: &[String]) {
             for l in text.lines() {
                 let t: Vec<&str> = l.split_whitespace().collect();
                 if t.len() >= 4 && t[0] == "case" && t[1] == "tls" {
-                    run_case(t[2].parse().unwrap(), t[3].parse().unwrap(), &mut out).await;
+                    crate::guard_case!(out, 300, run_case(t[2].parse().unwrap(), t[3].parse().unwrap(), &mut out));
                 }
             }
         } else {
             let seed: u64 = args.get(1).and_then(|s| s.parse().ok()).unwrap_or(1);
             let n: u64 = args.get(2).and_then(|s| s.parse().ok()).unwrap_or(1);
             for i in 0..n {
-                run_case(seed, i, &mut out).await;
+                crate::guard_case!(out, 300, run_case(seed, i, &mut out));
             }
         }
         let _ = std::fs::remove_dir_all(work_dir());
